@@ -33,6 +33,7 @@ OPTION_SETS = {
     "split": ["--tl2WhiteList=*", "--split-internal", "--generateRandomCode", "--generateRPCCode"],
     "nosanity-bytes-ns": ["--tl2WhiteList=vz.", "--generateByteVersions=vz.", "--checkLengthSanity=false"],
     "rpc": ["--tl2WhiteList=*", "--generateRPCCode", "--generateRandomCode", "--generateByteVersions=*"],
+    "split-tl2-bytes": ["--tl2WhiteList=*", "--split-internal", "--generateByteVersions=*", "--generateRandomCode"],
 }
 
 
@@ -90,6 +91,10 @@ def run(ctx):
         cases.append(("c%d" % i, {"s.tl": schemagen.PRELUDE + txt}, "tl2all" if i % 2 == 0 else "tl1only", "name-collisions"))
     for nm, txt, opts in KNOWN_BAD:
         cases.append(("k" + nm.split("-")[0], {"s.tl": schemagen.PRELUDE + txt}, opts[0], "known-bad:" + nm))
+    # the repository's own schemas under option sets upstream does not build them with (schema.tl + --split-internal + TL2 + byte versions is finding F31)
+    repo_sets = [("schema", "split-tl2-bytes"), ("cases", "split-tl2-bytes")] + ([("goldmaster", "split-tl2-bytes"), ("schema", "rpc"), ("cases", "nosanity-bytes-ns")] if thorough else [])
+    for setname, optset in repo_sets:
+        cases.append(("r%s_%s" % (setname, re.sub(r"\W", "", optset)), {os.path.basename(f): open(os.path.join(ctx.scratch, f)).read() for f in gen.REPO_SETS[setname]}, optset, "repo:" + setname))
     for nm, txt in KNOWN_BAD_TL2:
         cases.append(("k" + nm.split("-")[0], {"s.tl2": txt}, "tl2all", "known-bad:" + nm))
     accepted = []
@@ -159,7 +164,8 @@ def run(ctx):
                            (r"constants\.go:\d+:\d+: \w+ redeclared in this block", "does-not-build:constant-redeclared-after-name-mangling"),
                            (r"cannot use \(\*bool\)", "does-not-build:typedef-of-Bool-tl2"),
                            (r"cannot use v \(variable of type bool\)|as bool value in assignment|cannot use .* \(.*bool\) as", "does-not-build:empty-struct-under-mask"),
-                           (r"undefined: BitReadTL1|undefined: BitWriteTL1|BitReadTL1|BitWriteTL1", "does-not-build:tl2-bit-array")):
+                           (r"undefined: BitReadTL1|undefined: BitWriteTL1|BitReadTL1|BitWriteTL1", "does-not-build:tl2-bit-array"),
+                           (r"internal/tl/tlBuiltinDict\w+/dict_field\.go:\d+:\d+: \"[^\"]+\" imported and not used", "does-not-build:split-internal-dictionary-unused-import")):
                 if any(re.search(pat, l) for l in failed[key]):
                     cls = c
                     break
